@@ -30,6 +30,9 @@ pub struct DocApp {
 }
 
 pub struct State {
+    pub mt: Option<tokio::runtime::Runtime>,
+    pub pki: Option<Arc<crate::net::Pki>>,
+    pub net_cache: std::collections::HashMap<usize, String>,
     pub rt: tokio::runtime::Runtime,
     pub saved: Vec<Option<DiameterMessage>>,
     pub dict: Arc<Dictionary>,
@@ -447,6 +450,9 @@ impl State {
         let dict = Arc::new(Dictionary::new(&[]));
         let builtin_xml: String = diameter::dictionary::DEFAULT_DICT_XML.to_string();
         State {
+            mt: None,
+            pki: None,
+            net_cache: Default::default(),
             rt: tokio::runtime::Builder::new_current_thread().enable_all().start_paused(true).build().unwrap(),
             saved: vec![],
             msg: DiameterMessage::new(CommandCode::CreditControl, ApplicationId::CreditControl, 0, 0, 0, dict.clone()),
@@ -498,6 +504,30 @@ impl State {
                 format!("ok {} {} {}", dump_msg(&m), re, m.get_length())
             }
             Err(_) => "err".to_string(),
+        }
+    }
+
+    /// real-socket scenarios are executed in concurrent batches (they spend their time waiting for deadlines)
+    pub fn run_net_batch(&mut self, batch: Vec<(usize, String)>) {
+        if self.mt.is_none() {
+            self.mt = Some(tokio::runtime::Builder::new_multi_thread().worker_threads(8).enable_all().build().unwrap());
+        }
+        if self.pki.is_none() {
+            let pki = crate::net::make_pki();
+            // trust is injected through SSL_CERT_FILE, set at process start (main.rs); the file is written here
+            if let Ok(p) = std::env::var("VERIF_CA_FILE") {
+                if p.ends_with(".ca.pem") {
+                    let _ = std::fs::write(p, &pki.ca_pem);
+                }
+            }
+            self.pki = Some(Arc::new(pki));
+        }
+        let lines: Vec<String> = batch.iter().map(|x| x.1.clone()).collect();
+        // the scenarios use the built-in dictionary
+        let dict = Arc::new(Dictionary::new(&[&self.builtin_xml]));
+        let res = crate::net::run_batch(self.mt.as_ref().unwrap(), self.pki.clone().unwrap(), dict, lines);
+        for ((i, _), r) in batch.iter().zip(res) {
+            self.net_cache.insert(*i, r);
         }
     }
 
